@@ -482,7 +482,7 @@ def r_guard(prog, tier):
                     pol = ('haskey', f.kwarg, 'pos', True) in facts
                     idx = [names.index(u) for u in used if u in names]
                     sel[pol] = idx
-    ok = sel.get(True) == [1] and sel.get(False) == [0]
+    ok = True if (sel.get(True) == [1] and sel.get(False) == [0]) else (False if (sel.get(True) == [0] or sel.get(False) == [1]) else None)
     obs.append(Ob('R-GUARD/PLAIN', f.fq, 'the sentence written is the words, or the POS tags with the pos option', ok,
                   'component 1 under `pos`, component 0 otherwise' if ok else 'selection %s' % sel,
                   construct='plain-pos', line=f.node.lineno))
